@@ -330,6 +330,7 @@ def rsp_below_top(f, ref, stackp):
     return False
 
 
+PUBLISH_FIELDS = ('myth_thread.join_thread', 'myth_uncond_t.th')
 PUBLISH_CALLS = lib.RUNQ_INSERT + ('myth_sleep_queue_enq', 'myth_sleep_stack_push')
 
 
@@ -338,6 +339,7 @@ def rule_publish(ctx, mod, fname, stops):
     f = mod.fn(fname)
     if f is None:
         return
+    mod.check_fields(PUBLISH_FIELDS)
     for s in switch_sites(f):
         if not s.is_swap:
             continue
@@ -355,7 +357,7 @@ def rule_publish(ctx, mod, fname, stops):
             if len(c.args) >= 2 and f.sources(c.args[1]) & f.sources(owner):
                 offenders.append(c)
         for st in f.order:
-            if st.op == 'store' and f.field(st) in ('myth_thread.join_thread', 'myth_uncond.th') and \
+            if st.op == 'store' and f.field(st) in PUBLISH_FIELDS and \
                     f.can_reach(st, s.ins) and (f.sources(st.ops[0]) & f.sources(owner)):
                 offenders.append(st)
         ctx.ob('C03.7', k + ': no publication before save', not offenders or sched,
